@@ -108,6 +108,11 @@ func convertToString(val reflect.Value, options multiTag) (string, error) {
 			base = 10
 		}
 
+		if base < 2 || base > 36 {
+			// a base no numeral can be written in: strconv would panic
+			base = 10
+		}
+
 		return strconv.FormatInt(val.Int(), base), nil
 	case reflect.Uint, reflect.Uint8, reflect.Uint16, reflect.Uint32, reflect.Uint64:
 		base, err := getBase(options, 10)
@@ -117,6 +122,10 @@ func convertToString(val reflect.Value, options multiTag) (string, error) {
 		}
 
 		if base == 0 {
+			base = 10
+		}
+
+		if base < 2 || base > 36 {
 			base = 10
 		}
 
